@@ -34,7 +34,9 @@ KINDS = ("int", "str2", "str3", "tuple2", "list2", "tuple3", "dict1", "none", "d
 HASHABLE = ("int", "str2", "str3", "tuple2", "tuple3", "none", "set2")
 ORDERED_CARRIERS = ("list", "tuple", "deque", "generator", "iterator")
 SET_CARRIERS = ("set", "frozenset")
-MAP_CARRIERS = ("dict", "OrderedDict", "mappingproxy", "custom-mapping")
+# OrderedDict-moved: an OrderedDict whose first key was moved to the end (its order is the object's, not the order of insertion);
+# dict-items-override: a dict subclass whose items() / values() / keys() / __iter__ present the entries in reverse
+MAP_CARRIERS = ("dict", "OrderedDict", "OrderedDict-moved", "dict-items-override", "mappingproxy", "custom-mapping")
 KEY_KINDS = ("str", "int", "tuple")
 MAPVAL_KINDS = ("int", "tuple2", "str2")
 TEXT_CARRIERS = ("str", "bytes", "range")
@@ -121,6 +123,15 @@ def _universe_src() -> str:
     L = [
         "import collections, collections.abc, dataclasses, typing",
         "MAKE = {}",
+        "class RevDict(dict):",
+        "    def __iter__(self):",
+        "        return iter(list(dict.keys(self))[::-1])",
+        "    def keys(self):",
+        "        return list(dict.keys(self))[::-1]",
+        "    def values(self):",
+        "        return list(dict.values(self))[::-1]",
+        "    def items(self):",
+        "        return list(dict.items(self))[::-1]",
         "class CM(collections.abc.Mapping):",
         "    def __init__(self, d):",
         "        self._d = dict(d)",
@@ -222,6 +233,10 @@ def _universe_src() -> str:
         "CNT2 = collections.namedtuple('CNT2', ['a', 'b'])",
         "CNT3 = collections.namedtuple('CNT3', ['a', 'b', 'c'])",
     ]
+    # a slots-only class whose own `__slots__` is EMPTY: the attributes live in the slots of its base
+    L += ["class SOE_base:", "    __slots__ = ('a', 'b')", "class SOE(SOE_base):", "    __slots__ = ()", "    def __init__(self, a, b):", "        self.a = a", "        self.b = b",
+          "    def __repr__(self):\n        return 'SOE(a=%r, b=%r)' % (self.a, self.b)", "MAKE['SOE'] = SOE"]
+    _reg("SOE", "slots-only", "slots-only", "empty-leaf-slots")
     # named tuple classes that INHERIT from a named tuple class (the documented way of adding methods)
     L += ["class NT2sub(NT2):", "    __slots__ = ()", "    def first(self):", "        return self.a",
           "class CNT2sub(CNT2):", "    __slots__ = ()"]
@@ -432,6 +447,13 @@ def build(desc):
             return dict(items), None, None
         if c == "OrderedDict":
             return collections.OrderedDict(items), None, None
+        if c == "OrderedDict-moved":
+            od = collections.OrderedDict(items)
+            if len(od) > 1:
+                od.move_to_end(next(iter(od)))
+            return od, None, None
+        if c == "dict-items-override":
+            return u.RevDict(items), None, None
         if c == "mappingproxy":
             return types.MappingProxyType(dict(items)), None, None
         return u.CM(items), None, None
